@@ -88,6 +88,11 @@ type Config struct {
 	Ticks        []int
 	MaxRecs      int // driver bound: records per buffered event
 	PostClose    int // ops allowed after the first Close
+	// Reenter: the Stream re-enters the Reassembler from inside its first callback that
+	// happens while other events are still buffered: it pushes the EOE of the oldest buffered
+	// event (which can make the nested call deliver several events while the outer call is
+	// still walking its own batch).  Only M01 is meaningful for such configurations.
+	Reenter bool
 }
 
 const farTimeout = int64(1) << 40
@@ -104,7 +109,11 @@ func (c Config) String() string {
 	if c.TimeoutTicks == farTimeout {
 		to = "1000h"
 	}
-	return fmt.Sprintf("maxInFlight=%d timeout=%s base=%d offs=%v kinds=%v ticks=%v", c.MaxInFlight, to, c.Base, c.Offsets, c.Kinds, c.Ticks)
+	re := ""
+	if c.Reenter {
+		re = " reentrant-stream"
+	}
+	return fmt.Sprintf("maxInFlight=%d timeout=%s base=%d offs=%v kinds=%v ticks=%v maxrecs=%d%s", c.MaxInFlight, to, c.Base, c.Offsets, c.Kinds, c.Ticks, c.MaxRecs, re)
 }
 
 // ---- instance: real Reassembler + shadow + monitors ------------------------
@@ -137,13 +146,15 @@ type Instance struct {
 	r     *libaudit.Reassembler
 	clock *vtime.Clock
 
-	pending  map[uint32]*shadowEvent
-	hw       uint32 // high-water ord
-	hasHW    bool
-	closed   int // number of Close calls that returned nil
-	closedAt int // ops executed since first successful close
-	step     int
-	nextTag  int
+	pending   map[uint32]*shadowEvent
+	hw        uint32 // high-water ord
+	hasHW     bool
+	closed    int // number of Close calls that returned nil
+	closedAt  int // ops executed since first successful close
+	step      int
+	nextTag   int
+	reentered bool
+	nesting   int
 
 	// per-call observation
 	inCall       bool
@@ -240,6 +251,24 @@ func (in *Instance) ReassemblyComplete(msgs []*auparse.AuditMessage) {
 		in.hw = in.ord(s)
 	}
 	delete(in.pending, s)
+
+	if in.cfg.Reenter && in.nesting == 0 && in.closed == 0 && !in.callIsClose {
+		// every outermost callback re-enters (a deterministic function of the state)
+		// the oldest INCOMPLETE undelivered event (complete ones may already sit in the batch the
+		// outer call is walking)
+		var o *shadowEvent
+		for _, p := range in.pending {
+			if !p.complete && (o == nil || in.ord(p.seq) < in.ord(o.seq)) {
+				o = p
+			}
+		}
+		if o != nil {
+			in.nesting++
+			o.complete = true
+			in.r.PushMessage(&auparse.AuditMessage{RecordType: typeEOE, Sequence: o.seq})
+			in.nesting--
+		}
+	}
 }
 
 func (in *Instance) EventsLost(count int) {
@@ -548,6 +577,7 @@ func (in *Instance) Key() [20]byte {
 		HasHW    bool
 		Closed   int
 		ClosedAt int
-	}{mevs, in.hw, in.hasHW, in.closed, in.closedAt}
+		Reent    bool
+	}{mevs, in.hw, in.hasHW, in.closed, in.closedAt, in.reentered}
 	return statehash.Key(opts, in.r, mon)
 }
